@@ -8,6 +8,7 @@ import (
 	"io"
 	"math/rand"
 	"net/http"
+	"net/url"
 	"os"
 	"reflect"
 	"strings"
@@ -125,7 +126,12 @@ func (e *appEnv) addBackend(b appBackend) int {
 }
 
 func (e *appEnv) deleteBackend(id string) {
-	e.do(e.apiPort, "DELETE", "/api/backends/"+id, adminHdr, nil, 0)
+	// every segment escaped, slashes kept (an ID may contain them)
+	segs := strings.Split(id, "/")
+	for k := range segs {
+		segs[k] = url.PathEscape(segs[k])
+	}
+	e.do(e.apiPort, "DELETE", "/api/backends/"+strings.Join(segs, "/"), adminHdr, nil, 0)
 }
 
 func (e *appEnv) setLastSeen(id string, t time.Time) bool {
@@ -344,7 +350,9 @@ func appAuthDriver(a *Args) {
 	// registrations that change over time (histories enumerated by TLC from AppAuth.tla): every agent call is
 	// judged against the registration in force when it is made
 	for i, h := range cases.Histories {
-		id := fmt.Sprintf("hist-%d", i)
+		// backend IDs are arbitrary names: plain, with a slash, a space, a percent sign, non-ASCII
+		id := []string{"hist-%d", "team/hist-%d", "hist %d", "hist%%2F-%d", "hïst-%d", "a/b/hist-%d"}[i%6]
+		id = fmt.Sprintf(id, i)
 		users := map[string]string{"1": "hist-agent-1@example.com", "2": "hist-agent-2@example.com"}
 		announce := func(user string) {
 			list := []appBackend{}
